@@ -165,7 +165,7 @@ def _observe(m, v, wf_ok):
 
 def e2_items(tier):
     # (start value index, first operation index): the remaining operations of the history are enumerated inside the item
-    return [[r, o, 2 if tier == 'quick' else 3] for r in range(8) for o in range(76)]
+    return [[r, o, 2 if tier == 'quick' else 3] for r in range(9) for o in range(76)]
 
 
 def e2_task(envr, item):
@@ -232,9 +232,9 @@ def e2_task(envr, item):
     return ContractRun(body, [], replayable=False)
 
 
-GROUPS.append(Group('E2', 'BOUNDED, native: every history of 2 (quick) / 3 (thorough) operations out of 76 public calls (18 of them calls that must be rejected) on 8 start values '
+GROUPS.append(Group('E2', 'BOUNDED, native: every history of 2 (quick) / 3 (thorough) operations out of 76 public calls (18 of them calls that must be rejected) on 9 start values '
                     'leaves values on which the self-check, str(), repr(), to_str, format, settings_at, slicing, concatenation, '
                     'find_settings and iteration succeed and the representation invariant holds; an operation may raise only '
                     'TypeError / ValueError (IndexError for an integer index) and then leaves its receiver unchanged',
                     ['C09'], 'B', ['AnsiString.*'], e2_items, e2_task,
-                    bounds='exhaustive: 8 start values x 76^2 (quick) / 76^3 (thorough) histories; concrete arguments; not a proof'))
+                    bounds='exhaustive: 9 start values x 76^2 (quick) / 76^3 (thorough) histories; concrete arguments; not a proof'))
